@@ -302,7 +302,12 @@ def execute(sc):
   hkey = hashlib.sha256(repr((tname, bk, kinds)).encode()).hexdigest()[:12]
   nontriv = [hkey] if (probes.get('retry_after_other_calls') or probes.get('branch_from_old_state')
                        or probes.get('restart_then_continue')) else []
-  trace.ev('c10', target=tname, kinds=kinds, nodes=[fedsim.tree_bits(n) for n in nodes], viols=sorted(sigs))
+  def safe_bits(n):
+    try:
+      return fedsim.tree_bits(n)
+    except Exception:
+      return 'unreadable'
+  trace.ev('c10', target=tname, kinds=kinds, nodes=[safe_bits(n) for n in nodes], viols=sorted(sigs))
   sample = {'target': tname, 'spec': sc.get('spec') or sc.get('agg'), 'backend': sc.get('backend'), 'ops': sc['ops']}
   return {'digest': trace.digest(), 'evaluations': max(evals, 1), 'violations': viols, 'probes': dict(probes),
           'faults': dict(faults), 'distinct': [hkey], 'nontrivial': nontriv, 'sim_rounds': evals, 'sim_seconds': 0.0,
